@@ -7,18 +7,19 @@
 EXTENDS ConnTable, Json
 
 VARIABLES hist, finished,
-          held      \* requests the writer of a stalled connection has held at a hand-over
-gvars == <<vars, hist, finished, held>>
-GenView == <<vars, finished, held>>
+          held,     \* requests the writer of a stalled connection has held at a hand-over
+          rdial     \* redirected requests whose reader was about to create the client when all clients were reset
+gvars == <<vars, hist, finished, held, rdial>>
+GenView == <<vars, finished, held, rdial>>
 
-GenInit == Init /\ hist = <<>> /\ finished = FALSE /\ held = {}
+GenInit == Init /\ hist = <<>> /\ finished = FALSE /\ held = {} /\ rdial = {}
 
 Log(rec) == hist' = Append(hist, rec)
 
 Finish ==
   /\ ~finished /\ next > Cardinality(Reqs) /\ Quiet
   /\ PrintT("@@BEH " \o ToJson(hist))
-  /\ finished' = TRUE /\ UNCHANGED <<vars, hist, held>>
+  /\ finished' = TRUE /\ UNCHANGED <<vars, hist, held, rdial>>
 
 GenNext ==
   /\ ~finished
@@ -39,15 +40,20 @@ GenNext ==
      \/ BackendUp /\ Log([a |-> "BackendUp", r |-> 0])
      \/ ResetSnapshot /\ UNCHANGED hist
      \/ ResetSwap /\ Log([a |-> "ResetAll", r |-> 0])
+     \/ ResetDone /\ UNCHANGED hist
      \/ \E c \in Clients : RemoveSelf(c) /\ UNCHANGED hist
   /\ held' = held \cup {r \in Reqs : rq'[r] = "inhand"}
+  /\ rdial' = IF Len(hist') > Len(hist) /\ hist'[Len(hist')].a = "ResetAll"
+                THEN rdial \cup {r \in Reqs : asking[r] /\ rq[r] \in {"dial", "dialing"}} ELSE rdial
   /\ UNCHANGED finished
 
 GenSpec == GenInit /\ [][GenNext \/ Finish]_gvars
 
 \* mandatory strata (exhaustive run, VIEW GenView, ACTION_CONSTRAINT StrataEmit): every way a request that the writer
 \* held at a hand-over of a stalled connection gets its reply - the path is printed when that request is done; the
-\* check takes the shortest path per (command / ASKING hand-over, how the stall ended)
-StratumHit == \E r \in Reqs : r \in held' /\ rq[r] # "done" /\ rq'[r] = "done"
-StrataEmit == StratumHit => PrintT("@@STRATUM " \o ToJson(hist'))
+\* check takes the shortest path per (command / ASKING hand-over, how the stall ended); and: a redirected request whose
+\* reader (of the redirecting backend's client) was about to create the client of this address when all clients were reset
+StratumHit == \E r \in Reqs : r \in (held' \cup rdial') /\ rq[r] # "done" /\ rq'[r] = "done"
+HitReq == CHOOSE r \in Reqs : r \in (held' \cup rdial') /\ rq[r] # "done" /\ rq'[r] = "done"
+StrataEmit == StratumHit => PrintT("@@STRATUM " \o ToJson([kind |-> IF HitReq \in rdial' THEN "rdial" ELSE "pipe", hist |-> hist']))
 =============================================================================
